@@ -11,11 +11,14 @@ import copy
 
 from . import canon, data, ops
 
+# "mixed": numeric initial arms and a str label for the arm added later (decision lists of one training call stay
+# homogeneous in the first training ops; a list mixing both kinds is converted by numpy like any other list)
 LABELS = {
     "int": ([0, 2], 1),                # 0 on purpose: tests on the truth value of a label (instead of "is None") show
     "str": (["b", "a"], "third"),      # unsorted on purpose (anything keyed by sorted labels shows); the added label is
                                        # longer than the initial ones (fixed-width string arrays must not truncate it)
     "float": ([1.5, 0.5], 2.5),
+    "mixed": ([0, 2], "third"),
 }
 
 
